@@ -5,6 +5,7 @@
    grammar-conformant trees only by correspondence (K-front); on error-recovered trees the real visitor does crash:
    that is the recorded finding C06-K1, and the model reproduces those crashes (Crash outcomes are compared too). *)
 From Coq Require Import List String Bool Arith.
+From PDV Require Import Idl.GrammarDefs Idl.Lexer Idl.ParserG Idl.LexParseProofs Gen.Grammar.
 From PDV Require Import Lib.StrUtil Idl.Cst Idl.Ast Idl.Resolver Idl.Visitor Idl.Front Idl.ChecksProofs Idl.ImportProofs.
 Import ListNotations.
 Open Scope string_scope. Open Scope list_scope.
@@ -30,6 +31,25 @@ Theorem C06_import_recursion_bounded : forall w keys der inc idl ip s,
             map d_tag (s_errors (pr_state p)) = ["circular-indirect"].
 Proof. exact fuel_exhaustion_is_diagnostic. Qed.
 Print Assumptions C06_import_recursion_bounded.
+
+(* ---- from the character sequence: the lexer of the grammar translated from Idl.g4 (model Idl/Lexer.v, tied to ANTLR's generated
+   lexer/parser by K-parse).  For EVERY character sequence lexing terminates within |input| steps, and the lexemes - tokens, skipped
+   white space, characters no rule accepts - partition the input.  The statement holds for every rule table, hence for today's. *)
+Theorem C06_lexing_terminates_on_every_input : forall s, exists ls, lex_all lexer_rules s = Some ls /\ concat_lexemes ls = s.
+Proof. exact (lex_all_total lexer_rules). Qed.
+Print Assumptions C06_lexing_terminates_on_every_input.
+
+Theorem C06_lexing_step_bound : forall rules mf steps s line col, String.length s <= steps -> lex_from steps mf rules s line col <> None.
+Proof. exact lex_total. Qed.
+Print Assumptions C06_lexing_step_bound.
+
+(* the parser model is a total function too (structural recursion on its fuel): a text is either parsed or rejected *)
+Example C06_parse_examples :
+  (exists k, parse_text lexer_rules parser_rules start_rule "foo = enum { a; b; }" = Some k) /\
+  parse_text lexer_rules parser_rules start_rule "foo = enum { a b; }" = None /\
+  parse_text lexer_rules parser_rules start_rule "foo = ;" = None /\
+  parse_text lexer_rules parser_rules start_rule "$" = None.
+Proof. split; [eexists; vm_compute; reflexivity | vm_compute; repeat split; reflexivity]. Qed.
 
 (* refuted in full generality, with a witness: a tree as ANTLR's error recovery returns it for `foo = ;`
    (typeDecl without any alternative and without a stop token) makes the visitor fail internally *)
